@@ -2124,6 +2124,27 @@ class Mailbox:
             uids_to_delete,
         )
 
+        # Remove all deleted msg keys from all sequences
+        #
+        for seq in self.sequences.keys():
+            for msg_key in to_delete:
+                self.sequences[seq].discard(msg_key)
+
+        # The folder's .mh_sequences must not mention the removed messages
+        # either: MH gives the next delivered message the lowest free number
+        # above the highest one, so a freed number is reused and the new
+        # message would inherit the old one's flags.
+        #
+        # NOTE: This is done before the messages are removed. If we die while
+        #       rewriting .mh_sequences it may be left truncated. As long as
+        #       the folder has not shrunk the sequences stored in the db are
+        #       used after a restart, but a folder that has shrunk is treated
+        #       as a new mailbox and then .mh_sequences is the only record of
+        #       the flags of the messages that remain.
+        #
+        async with self.mh_sequences_lock:
+            self.set_sequences_in_folder(self.sequences)
+
         for msg_key in to_delete:
             # Remove the message from the folder.. and also remove it from our
             # uids to message index mapping. NOTE: To convert which to the IMAP
@@ -2152,20 +2173,6 @@ class Mailbox:
             expunge_msg = f"* {which + 1} EXPUNGE\r\n"
             await self._dispatch_or_pend_notifications(expunge_msg)
         self._rebuild_index_dicts()
-
-        # Remove all deleted msg keys from all sequences
-        #
-        for seq in self.sequences.keys():
-            for msg_key in to_delete:
-                self.sequences[seq].discard(msg_key)
-
-        # The folder's .mh_sequences must not mention the removed messages
-        # either: MH gives the next delivered message the lowest free number
-        # above the highest one, so a freed number is reused and the new
-        # message would inherit the old one's flags.
-        #
-        async with self.mh_sequences_lock:
-            self.set_sequences_in_folder(self.sequences)
 
         self.num_recent = len(self.sequences["Recent"])
         await self.commit_to_db()
